@@ -45,10 +45,11 @@ def cached_sympify(u):
 class UnitRegistry:
     """A registry for unit symbols"""
 
-    _unit_system_id = None
-
     def __init__(self, add_default_symbols=True, lut=None, unit_system=None):
         self._unit_object_cache = {}
+        # holder of the memoised unit_system_id: a shallow copy of a registry
+        # shares the table, so it has to share (and see resets of) the id too
+        self._unit_system_id_holder = [None]
         if lut:
             self.lut = lut
         else:
@@ -80,6 +81,14 @@ class UnitRegistry:
             return True
         except UnitParseError:
             return False
+
+    @property
+    def _unit_system_id(self):
+        return self.__dict__.setdefault("_unit_system_id_holder", [None])[0]
+
+    @_unit_system_id.setter
+    def _unit_system_id(self, value):
+        self.__dict__.setdefault("_unit_system_id_holder", [None])[0] = value
 
     @property
     def unit_system_id(self):
